@@ -1,9 +1,58 @@
 """C14 — the secp256k1 implementation agrees with the curve mathematics (Mode B correspondence
 with the textbook model Model/Secp.v; ECDSA algebra proved under the group-law premises)."""
+import os
+
 import modeb
+import vf
+
+FL_GROUPS = ["fl_norm", "fl_add", "fl_mul", "fl_neg", "fl_pred", "fl_setint", "fl_setb32", "fl_getb32"]
+FL_HEADER = ("From Sky Require Import Base.Uint Model.Secp Model.FieldSpec Gen.FieldLimbs.\n"
+             "Open Scope Z_scope.")
+
+
+def fieldlimbs_post(ctx, cases, outs, sj, state):
+    """Mode A evaluation (vm_compute in coqc) of the limb-level cases the harness put into the
+    side file: Gen/FieldLimbs.v vs the observed limbs (mism_fl_*), and the limb theorems'
+    decidable form on the implementation's outputs (pf_fl_*)."""
+    data = sj.get("fieldlimbs_coq")
+    if not data:
+        vf.violation(ctx, {"broken": "the harness wrote no limb-level cases (fieldlimbs_coq)"}, False,
+                     "limb-level translation validation did not run")
+        return
+    path = vf.cases_path(ctx.pid, ctx.seed, "limbs")
+    with open(path, "w") as f:
+        f.write(FL_HEADER + "\n" + data + "\n" + open(os.path.join(vf.COQ, "Corr", "C14_limbs.v")).read())
+    ok, out, vals = vf.coq_eval(path)
+    try:
+        os.remove(path)
+    except OSError:
+        pass
+    names = ["mism_" + g for g in FL_GROUPS] + ["pf_fl_norm", "pf_fl_neg"]
+    if not ok or any(n not in vals for n in names):
+        vf.violation(ctx, {"broken": "limb-level evaluation file did not compile (Gen/FieldLimbs.v or Corr/C14_limbs.v)",
+                           "log": out[-3000:]}, False, "limb-level correspondence could not be evaluated")
+        return
+    allc = sj.get("cases", {})
+    ctx.coverage["fieldlimbs"] = {"cases_per_function": len(allc.get("fl_norm", [])),
+                                  "normalize_cases_inside_premise": vals.get("n_fl_norm_in_premise")}
+    for n in names:
+        idx = [int(x) for x in vals[n].strip("[]").replace(";", " ").split()]
+        if not idx:
+            continue
+        g = n[5:] if n.startswith("mism_") else n[3:]
+        i = idx[0]
+        case = dict((allc.get(g) or [{}] * (i + 1))[i]) if i < len(allc.get(g, [])) else {"index": i}
+        case["group"] = g
+        what = ("regenerated Gen/FieldLimbs.v and the implementation differ" if n.startswith("mism_")
+                else "limb-level theorem fails on the implementation's output")
+        vf.violation(ctx, {"group": g, "case": case, "failing_indices": idx[:20], "check": n}, n.startswith("pf_"),
+                     "%s: %s %s" % (what, case.get("fn", g), {k: case[k] for k in case if k in ("limbs", "limbs2", "a", "m", "bytes", "observed", "kind")}),
+                     "-%s%d" % (g, i))
+        state["found"] = True
 
 SPEC = {
-    "uses_gen": ["Crypto"],
+    "uses_gen": ["Crypto", "FieldLimbs"],
+    "post": fieldlimbs_post,
     "cmd": "c14",
     "budget": (120, 3000),
     "model_vos": ["Model/Secp.vo", "Model/SigAccept.vo"],
@@ -13,7 +62,8 @@ SPEC = {
         "prime p, prime n (Znumtheory.prime), padd_associative (associativity of the chord-tangent addition on curve points), "
         "sqrt_correct (c^((p+1)/4) is a square root of every square; used by recover_sign / ecdh_sym / compress_parse only). "
         "Proved, not assumed: closure, commutativity, identity/inverses, n*G = O (kernel computation + jacobian_correct), Jacobian = affine",
-        "the optimised field/group code (10x26-bit limbs, wNAF, endomorphism split, precomputed tables) is compared with the model, not proved",
+        "field layer: Field.Normalize / SetAdd / MulInt / Negate / IsOdd / IsZero / Equals / SetInt / SetB32 / GetB32 (10x26-bit limbs) are TRANSLATED on this run by /verif/translator (stage4.go -> Gen/FieldLimbs.v: a Field is its ten limbs, a modified pointer receiver is returned, `for c != 0` is a fuelled loop whose exhaustion is Panic, constant-bound loops are unrolled), validated on this run against the real methods on generated limb tuples (limbs read / written through unsafe.Pointer), and PROVED to implement arithmetic modulo p (C14_Normalize_correct .. C14_Equals_correct, Proofs/FieldLimbs.v)",
+        "still compared with the model only, not proved: Field.Mul / Sqr / Inv / Sqrt, the group code on top (Jacobian formulas in limb form, wNAF, endomorphism split, precomputed tables), and that the group code keeps every Field within the magnitude premises of the limb theorems",
         "translator tables_crypto.go (secp256k1 constants -> Gen/SecpConsts.v)",
     ],
     "assumptions": [
